@@ -677,3 +677,70 @@ def emplace_bytes_contract(with_mask):
                     H.And(cur <= j, j < cur + n),
                     H.And(H.byte_at(new, j) == H.byte_at(data, j - cur), H.byte_at(new_mask, j) == 255),
                     H.And(H.byte_at(new, j) == _ext(old_msg, j), H.byte_at(new_mask, j) == _ext(old_mask, j)))))
+
+
+# ---------------------------------------------------------------------------------------------------------------
+# LEADING-LENGTH-INFO-TYPE, modularly: the real encode_into_pdu runs against an encode state that obeys the contract
+# the harnesses above prove for the real EncodeState (an unsigned integer is accepted iff it is representable in the
+# given number of bits, a byte field iff it has exactly the given size; raw bytes are taken as they are).  No bits are
+# computed, so the value may be as long as the widest length field can count - the 256 byte value that wraps an 8 bit
+# length field is out of reach of the bit-level harnesses.
+from odxtools.leadinglengthinfotype import LeadingLengthInfoType  # noqa: E402
+
+
+class ContractEncodeState:
+
+    def __init__(self):
+        self.cursor_byte_position = 0
+        self.cursor_bit_position = 0
+        self.origin_byte_position = 0
+        self.is_end_of_pdu = True
+        self.records = []
+
+    def emplace_atomic_value(self, *, internal_value, bit_length, base_data_type, base_type_encoding,
+                             is_highlow_byte_order, used_mask):
+        if base_data_type == DataType.A_UINT32:
+            if not (internal_value >= 0 and internal_value < 2**bit_length):
+                raise EncodeError("not representable")
+            self.records.append(("uint", internal_value, bit_length, is_highlow_byte_order))
+        else:
+            if 8 * len(internal_value) != bit_length:
+                raise EncodeError("size mismatch")
+            self.records.append(("bytes", internal_value))
+
+    def emplace_bytes(self, new_data, param_name=None, pos=None):
+        self.records.append(("raw", new_data))
+
+
+@harness(props=["C04", "C01"], strength="B", family=lambda t, s: [{"bits": b, "hl": hl} for b in (8, 16, 4)
+                                                                  for hl in (None, False)],
+         bound="byte field values of 0..70000 bytes (beyond what a 16 bit length field counts); length fields of 4, 8 "
+         "and 16 bits; the encode state is the interface contract of EncodeState, not the class",
+         functions=[LeadingLengthInfoType.encode_into_pdu, LeadingLengthInfoType._minimal_byte_length_of],
+         covers=["accepted", "rejected"], assumes=["A-lib"], crosscheck=False)
+def leading_length_field_counts_the_payload(bits, hl):
+    """a LEADING-LENGTH-INFO-TYPE value is accepted iff its size is representable in the length field; the length field
+    then denotes exactly the number of payload bytes that follow"""
+    t = LeadingLengthInfoType(base_data_type=DataType.A_BYTEFIELD, base_type_encoding=None,
+                              is_highlow_byte_order_raw=hl, bit_length=bits)
+    v = H.bytes("value", 0, 70000)
+    st = ContractEncodeState()
+    try:
+        t.encode_into_pdu(v, st)
+    except EncodeError:
+        H.cover("rejected")
+        H.check("C04:only-values-too-long-for-the-length-field-are-rejected", len(v) >= 2**bits)
+        return
+    H.cover("accepted")
+    H.check("C04,C01:accepted-implies-the-size-is-representable-in-the-length-field", len(v) < 2**bits)
+    field = st.records[0]
+    if field[0] == "uint":
+        denoted, shaped = field[1], H.And(field[2] == bits, field[3] == (hl is None))
+    elif field[0] == "raw":
+        denoted = int.from_bytes(field[1], "big" if hl is None else "little")
+        shaped = 8 * len(field[1]) == bits
+    else:
+        denoted, shaped = -1, False
+    H.check("C04,C01:length-field-denotes-the-number-of-payload-bytes", H.And(shaped, denoted == len(v)))
+    H.check("C04,C01:payload-follows-the-length-field",
+            H.And(len(st.records) == 2, st.records[1][0] == "bytes", H.eq(st.records[1][1], v)))
